@@ -27,7 +27,7 @@ GEN_FILES = ["GenNotes"]
 DRIVERS = ["notes"]
 THEOREMS = ["C05_batch_unique", "C05_batch_layout", "C05_lookup_complete", "C05_batch_preserves_others",
             "C05_fanout2_refuted", "C05_unique_keysb_spec", "C05_notes_path_components",
-            "C05_attestation_wf", "C05_build_ranges_ok", "C05_to_authorship_log_spec", "C05_upsert_spec",
+            "C05_attestation_wf", "C05_build_ranges_ok", "C05_to_authorship_log_spec", "C05_upsert_spec", "C05_replay_refuted",
             "C05_remap_base", "C05_remap_marker_refuted", "C05_gen_constants",
             "C05_nonvacuous_tree", "C05_nonvacuous_builder", "C05_nonvacuous_note_ok"]
 CLAIM = {
@@ -1221,8 +1221,8 @@ def run(ctx):
                         model and not mism, "; ".join(mism[:3]) if mism else ("" if model else "model did not build")))
 
     # ---------------------------------------------------------------- (a) generated histories
-    n_h = 300 if quick else 2500
-    n_n = 100 if quick else 800
+    n_h = 170 if quick else 2500
+    n_n = 60 if quick else 800
     jobs = [(ctx.scratch, ctx.seed, i, {"max_ops": 10}) for i in range(n_h)] + \
            [(ctx.scratch, ctx.seed, i, {"max_ops": 9, "nasty": True}) for i in range(n_n)]
     fan_jobs = [(ctx.scratch, i, d, op) for i, (d, op) in enumerate(
